@@ -428,18 +428,28 @@ def decide_V(prop, tier, seed, t0, replay):
     if replay:
         lines = [l for l in open(replay).read().splitlines() if l.startswith("vec ") or l.startswith("zst ")]
         d = os.path.join(WORK, "replayV")
-        dirs = []
+        dirs = []; rerrs = []
         for prof, b in chan_v.bins().items():
             dd = os.path.join(d, prof + "-replay"); os.makedirs(dd, exist_ok=True)
             open(os.path.join(dd, "script.txt"), "w").write("\n".join(lines) + "\n")
             r = chan_v._run((prof, b, "file:" + os.path.join(dd, "script.txt"), 0, 0, dd))
             if "error" not in r:
                 dirs.append(dd)
-        info = {"dirs": dirs, "errors": [], "cached": False}
+            else:
+                rerrs.append(r)
+        info = {"dirs": dirs, "errors": rerrs, "cached": False}
     else:
         info = chan_v.run(seed, tier)
     an = chan_v.analyse(info["dirs"])
     oracle = [o for o in an["oracle"] if o["property"] == prop]
+    # the harness process died while the real conversion ran a script: memory corruption on a valid input
+    for e in info["errors"]:
+        if e.get("crash"):
+            t = e["crash"].split(" ")
+            nn = int(t[5]); sc = t[6:6 + nn]
+            which = "C10" if (t[1], t[2]) != (t[3], t[4]) else ("C09" if any(c in chan_v.FAIL for c in sc) else "C08")
+            if which == prop:
+                oracle.append({"property": prop, "message": "the process running the real conversion died on this script (abort / memory corruption): " + e["error"][-200:].replace("\n", " "), "request": e["crash"], "impl": "<process died>", "profile": e.get("profile", "?")})
     # side scripts (zero-size elements, plain-data inputs with owning outputs, refusal of zero-size pairs): the expected outcome is
     # computed straight from the script; attributed by what was expected: success -> C08, refusal -> C10, failure cleanup -> C09
     for z in an["zst_bad"]:
